@@ -70,6 +70,7 @@ func (tx *Tx) acquire(key string, write, placeholder bool) *metadata {
 	for {
 		s.mu.RLock()
 		m, ok := s.lookup(key)
+		verifTrace("look", tx, key, m, ok)
 		s.mu.RUnlock()
 		verifPoint("lockKey.afterLookup")
 		if !ok {
@@ -94,6 +95,7 @@ func (tx *Tx) acquire(key string, write, placeholder bool) *metadata {
 				s.pending = make(map[string]*metadata)
 			}
 			s.pending[key] = m
+			verifTrace("claim", tx, key, m, write)
 			s.mu.Unlock()
 			tx.lockedMetas = append(tx.lockedMetas, m)
 			return m
@@ -108,24 +110,29 @@ func (tx *Tx) acquire(key string, write, placeholder bool) *metadata {
 			}
 			return m
 		}
+		verifTrace("wait", tx, key, m, write)
 		if write {
 			m.Lock()
 			m.writeable = true
 		} else {
 			m.RLock()
 		}
+		verifTrace("lock", tx, key, m, write)
 		// the record may have been unlinked (deleted, renamed away, flushed) or replaced while
 		// this transaction was waiting for it: an update made to it now would be lost
 		s.mu.RLock()
 		cur, ok := s.lookup(key)
+		verifTrace("valid", tx, key, m, ok && cur == m && (write || m.value != nil))
 		s.mu.RUnlock()
 		if !ok || cur != m {
+			verifTrace("unlock", tx, key, m, false)
 			m.commit()
 			continue
 		}
 		if !write && m.value == nil {
 			// the value has to be loaded from storage into the record (or the record is a
 			// placeholder): that needs the write lock even for a reader
+			verifTrace("unlock", tx, key, m, false)
 			m.commit()
 			write = true
 			continue
@@ -164,6 +171,7 @@ func (tx *Tx) newKey(m *metadata, key string, newFn func() ds.Value) *metadata {
 	if s.pending[key] == m {
 		delete(s.pending, key)
 		s.metadata.Set(key, m)
+		verifTrace("publish", tx, key, m, true)
 	}
 	s.mu.Unlock()
 	return m
@@ -189,6 +197,10 @@ func (tx *Tx) delKey(key string) {
 			}
 			s.pending[key] = p
 			tx.lockedMetas = append(tx.lockedMetas, p)
+			verifTrace("unlink", tx, key, m, true)
+			verifTrace("claim", tx, key, p, true)
+		} else {
+			verifTrace("unlink", tx, key, m, false)
 		}
 	}
 	s.mu.Unlock()
@@ -237,27 +249,34 @@ func (tx *Tx) readKey(key string) *metadata {
 }
 
 func (tx *Tx) commit() {
+	verifTrace("commit", tx, "", nil, false)
 	for i := len(tx.lockedMetas) - 1; i >= 0; i-- {
 		meta := tx.lockedMetas[i]
 		if meta.isOk() {
+			verifTrace("unlock", tx, "", meta, false)
 			meta.commit()
 			continue
 		}
 		// a placeholder that was not turned into a key
 		if !meta.writeable {
+			verifTrace("unlock", tx, "", meta, false)
 			meta.RUnlock()
 			if !meta.TryLock() {
 				// shared with another transaction, which will remove it
 				continue
 			}
 			meta.writeable = true
+			verifTrace("trylock", tx, meta.key.Name, meta, true)
 		}
 		tx.store.mu.Lock()
 		if tx.store.pending[meta.key.Name] == meta {
 			delete(tx.store.pending, meta.key.Name)
+			verifTrace("drop", tx, meta.key.Name, meta, true)
 		}
 		tx.store.mu.Unlock()
+		verifTrace("unlock", tx, "", meta, false)
 		meta.commit()
 	}
 	tx.lockedMetas = tx.lockedMetas[:0]
+	verifTrace("end", tx, "", nil, false)
 }
